@@ -166,6 +166,7 @@ func cmdCheck(args []string) int {
 		byDir[s.dir] = append(byDir[s.dir], s.name)
 	}
 	var coverFails []string
+	pathsOf := map[string]int{}
 	for _, d := range dirOrder {
 		e, err := LoadPackage(filepath.Join(repoRoot, d), specFilesFor(d))
 		if err != nil {
@@ -199,6 +200,7 @@ func cmdCheck(args []string) int {
 				continue
 			}
 			totalPaths += res.Paths
+			pathsOf[d+":"+n] = res.Paths
 			for _, a := range res.Assumed {
 				assumed[a] = true
 			}
@@ -233,6 +235,68 @@ func cmdCheck(args []string) int {
 			coverFails = append(coverFails, evalCovers(res, filepath.Join(outDir, sanitize(res.Func)), e.preludeText(res, res.Axioms))...)
 		}
 	}
+	// thorough tier, second opinion: verify again WITHOUT state merging (every
+	// path on its own) and demand the same verdicts.  Functions with many
+	// paths are skipped (listed in the evidence).
+	var crossNotes []string
+	if *tier == "thorough" {
+		discharged := map[string]bool{}
+		for _, s := range summaries {
+			if s.Verdict == "discharged" {
+				discharged[s.Name] = true
+			}
+		}
+		for _, d := range dirOrder {
+			e, err := LoadPackage(filepath.Join(repoRoot, d), specFilesFor(d))
+			if err != nil {
+				continue
+			}
+			e.outDir = filepath.Join(outDir, "nomerge")
+			e.timeoutS = 20
+			e.noMerge = true
+			for _, n := range byDir[d] {
+				if n == "package" || e.funcs[n] == nil || pathsOf[d+":"+n] > 400 {
+					if n != "package" && e.funcs[n] != nil {
+						crossNotes = append(crossNotes, fmt.Sprintf("no-merge cross-check skipped for %s:%s (%d merged paths)", d, n, pathsOf[d+":"+n]))
+					}
+					continue
+				}
+				res, err := e.VerifyFunc(n)
+				if err != nil {
+					continue
+				}
+				limit := false
+				for _, m := range res.Unsupported {
+					if strings.Contains(m, "path budget") {
+						limit = true
+					}
+				}
+				if limit {
+					crossNotes = append(crossNotes, fmt.Sprintf("no-merge cross-check gave up on %s:%s (path limit)", d, n))
+					continue
+				}
+				var mine []*Oblig
+				for _, o := range res.Obligs {
+					if hasProp(o.Props, P) {
+						mine = append(mine, o)
+					}
+				}
+				res.Obligs = mine
+				e.DischargeAll(res, res.Axioms, 16)
+				nFail := 0
+				for _, sm := range summarizeObligs(res, d, e, e.outDir) {
+					if sm.Verdict != "discharged" && discharged[sm.Name] {
+						nFail++
+						sm.Name += " (no-merge cross-check)"
+						sm.Text = "discharged with state merging but not path by path: " + sm.Text
+						summaries = append(summaries, sm)
+					}
+				}
+				crossNotes = append(crossNotes, fmt.Sprintf("no-merge cross-check of %s:%s: %d paths, %d obligation instances, %d disagreements", d, n, res.Paths, len(mine), nFail))
+			}
+		}
+	}
+
 	// lemma files (SMT) registered for this property
 	lemmaSums, lemmaN := runLemmas(P, *tier, outDir)
 	summaries = append(summaries, lemmaSums...)
@@ -326,6 +390,37 @@ func cmdCheck(args []string) int {
 		fmt.Println(l)
 	}
 
+	// thorough tier: sensitivity of this check - the property's mutants must be
+	// caught and its benign refactorings must stay quiet (reported in the
+	// evidence; a missed mutant is a weakness of the check, not a violation)
+	var sensitivity map[string]interface{}
+	if *tier == "thorough" && os.Getenv("EBU_NO_SENSITIVITY") == "" {
+		if self, err := os.Executable(); err == nil {
+			c := exec.Command(self, "selftest", "-p", P)
+			c.Env = append(os.Environ(), "EBU_NO_SENSITIVITY=1")
+			out, _ := c.CombinedOutput()
+			var caught, missed, quiet, alarms []string
+			for _, l := range strings.Split(string(out), "\n") {
+				f := strings.Fields(l)
+				if len(f) < 2 {
+					continue
+				}
+				switch {
+				case f[0] == "ok" && strings.Contains(l, "quiet["):
+					quiet = append(quiet, f[1])
+				case f[0] == "ok":
+					caught = append(caught, f[1])
+				case f[0] == "MISSED":
+					missed = append(missed, f[1])
+				case f[0] == "FALSE-ALARM":
+					alarms = append(alarms, f[1])
+				}
+			}
+			sensitivity = map[string]interface{}{"mutants_caught": caught, "mutants_missed": missed, "benign_quiet": quiet, "benign_false_alarms": alarms}
+			fmt.Printf("%s: sensitivity: %d/%d mutants caught, %d/%d benign changes quiet\n", P, len(caught), len(caught)+len(missed), len(quiet), len(quiet)+len(alarms))
+		}
+	}
+
 	// 5. evidence
 	wall := time.Since(start).Seconds()
 	var samples []interface{}
@@ -371,6 +466,8 @@ func cmdCheck(args []string) int {
 			"vacuity":                  map[string]interface{}{"requires_covers_unsat": coverFails, "missing_expected_obligations": missing},
 			"obligation_list":          obl,
 			"single_solver_obligations": fragile,
+			"nomerge_cross_check":       crossNotes,
+			"sensitivity":               sensitivity,
 			"explanation":              "every obligation generated from the contracts of the listed functions on the current working tree, discharged (unsat of assumptions ∧ ¬goal) by the SMT portfolio; an obligation counts as discharged only if every path instance is",
 		},
 		"assumptions": tb,
